@@ -124,3 +124,42 @@ def has_reference_edge(g):
 def placeholders(g):
   ls, extra = all_lines(g)
   return [l for l in ls + extra if is_virtual(l)]
+
+
+def namespace_coherence(g):
+  """Model-free: pairwise distinct identifiers, every identified line found
+  under its identifier, and no identifier carried by a line of the Gfa while
+  other lines still refer to a placeholder of that name.  Returns a list of
+  problem strings."""
+  import gfapy
+  from . import observe
+  out = []
+  try:
+    names = list(g.names)
+    ls, extra = observe.all_lines(g)
+  except Exception as e:
+    return ["names / lines raise " + type(e).__name__]
+  if len(names) != len(set(names)):
+    out.append("duplicate identifiers {}".format(sorted(map(str, names))))
+  real, virt = {}, set()
+  for l in ls + extra:
+    n = observe.line_name(l)
+    if n is None:
+      continue
+    if observe.is_virtual(l):
+      virt.add(n)
+    elif any(l is x for x in ls):
+      if n in real:
+        out.append("two lines carry {!r}".format(n))
+      real[n] = l
+  for n, l in real.items():
+    try:
+      if g.line(n) is not l:
+        out.append("line({!r}) does not return the line carrying it".format(n))
+    except Exception as e:
+      out.append("line({!r}) raises {}".format(n, type(e).__name__))
+  both = sorted(set(real) & virt)
+  if both:
+    out.append("{} carried by a line while other lines still refer to a "
+               "placeholder of that name".format(both))
+  return out
